@@ -10,8 +10,8 @@
  ***************************************************************************)
 EXTENDS BubusProps
 
-\* frames abandoned by a cancellation travelling through an inline process_event (F5)
-AbandonedC(o) == {<<p[1], p[2]>> : p \in {x \in o.procX : x[3] = "Cancelled"}}
+\* (F5 - frames abandoned by a cancellation travelling through an inline process_event - was repaired in /repo: b9117ef, 119c6df;
+\*  its signature is gone, so its symptoms are violations again)
 \* process_event aborted by the recursion guard (F2): the probe saw a RuntimeError and a scenario handler of that bus has
 \* already handled more than two ancestors of the event
 StrandedR(cfg, o) == {<<p[1], p[2]>> : p \in {x \in o.procX : x[3] = "RuntimeError" /\
@@ -20,15 +20,11 @@ EvOf(S) == {p[2] : p \in S}
 InNoHistory(o, e) == \A b \in DOMAIN o.hist : ~InSeq(e, o.hist[b])
 SomeBounded(cfg) == \E b \in BusNames(cfg) : MaxHist(cfg, b) > 0
 
-\* F5 abandons frames; what it can NOT explain is a result left `pending` on a descendant of the very event whose handler timed out:
-\* that level cancels every pending result below it (C10), so such a leftover is a different defect
-BadPending(o, S) == \E d \in S : (\E i \in DOMAIN o.snap[d].res : o.snap[d].res[i].st = "pending") /\ TimedOutAncestor(o, d)
 CompletionClauses == {"C03.hang", "C03.incomplete", "C03.not_completed", "C10.incomplete", "C04.incomplete"}
 
 Classify(cfg, o, w) ==
   CASE w.c = "C05.unrelated" /\ w.k = "in"                                   -> "F0"
     \* the drain goes on although nothing of the awaited tree is left to process: only when a recorded finding lost that tree's completion
-    [] w.c = "C05.unrelated" /\ w.k = "in_nothing_left" /\ (Sub(o, w.a) \cap EvOf(AbandonedC(o))) # {} /\ ~BadPending(o, Sub(o, w.a)) -> "F5"
     [] w.c = "C05.unrelated" /\ w.k = "in_nothing_left" /\ (Sub(o, w.a) \cap EvOf(StrandedR(cfg, o))) # {}                 -> "F2"
     [] w.c = "C05.unrelated" /\ w.k = "in_nothing_left" /\ SomeBounded(cfg) /\
        \E d \in Sub(o, w.a) : ~o.snap[d].sig /\ o.snap[d].res # <<>> /\ ResDone(o.snap[d]) /\ InNoHistory(o, d)            -> "F11"
@@ -43,11 +39,8 @@ Classify(cfg, o, w) ==
                               /\ w.e \in Sub(o, w.a)                           -> "F4"
     [] w.c = "C09.event_bus" /\ w.k = "lastpath"                             -> "F9"
     [] w.c = "C01.missing" /\ <<w.b, w.e>> \in StrandedR(cfg, o)             -> "F2"
-    [] w.c = "C01.missing" /\ <<w.b, w.e>> \in AbandonedC(o)                 -> "F5"
     [] w.c \in CompletionClauses /\ (Sub(o, w.e) \cap EvOf(StrandedR(cfg, o))) # {}   -> "F2"
-    [] w.c \in CompletionClauses /\ (Sub(o, w.e) \cap EvOf(AbandonedC(o))) # {} /\ ~BadPending(o, Sub(o, w.e))  -> "F5"
     [] w.c = "C15.hang" /\ \E p \in StrandedR(cfg, o) : p[1] = w.b           -> "F2"
-    [] w.c = "C15.hang" /\ \E p \in AbandonedC(o) : p[1] = w.b               -> "F5"
     [] w.c \in {"C03.hang", "C03.not_completed", "C03.incomplete", "C04.incomplete"} /\ w.k \in {"", "completed", "processed"} /\ SomeBounded(cfg) /\
        \E d \in Sub(o, w.e) : ~o.snap[d].sig /\ o.snap[d].res # <<>> /\ ResDone(o.snap[d]) /\ InNoHistory(o, d) -> "F11"
     [] OTHER                                                                 -> ""
